@@ -57,7 +57,7 @@ fn interesting(a: u64, n: u128, fwd: bool) -> bool {
     crosses || near(q) || (fwd && q >= SPACE) || (!fwd && n > p)
 }
 
-fn vstep(c: &(u64, u64, u64), obs: &mut Obs) -> CaseResult {
+pub fn vstep(c: &(u64, u64, u64), obs: &mut Obs) -> CaseResult {
     let (a, n, b) = *c;
     let va = VirtAddr::new(a);
     let vb = VirtAddr::new(b);
@@ -156,7 +156,7 @@ fn pstep_s<S: PageSize>(a: u64, n: u64, b: u64, obs: &mut Obs) -> CaseResult {
     Ok(())
 }
 
-fn pstep(c: &(u8, u64, u64, u64), obs: &mut Obs) -> CaseResult {
+pub fn pstep(c: &(u8, u64, u64, u64), obs: &mut Obs) -> CaseResult {
     let (s, a, n, b) = *c;
     match s % 3 {
         0 => pstep_s::<Size4KiB>(a, n, b, obs),
@@ -165,7 +165,7 @@ fn pstep(c: &(u8, u64, u64, u64), obs: &mut Obs) -> CaseResult {
     }
 }
 
-fn istep(c: &(u16, u64, u16), obs: &mut Obs) -> CaseResult {
+pub fn istep(c: &(u16, u64, u16), obs: &mut Obs) -> CaseResult {
     let (i, n, j) = *c;
     let (i, j) = (i % 512, j % 512);
     let pi = PageTableIndex::new(i);
